@@ -105,7 +105,7 @@ NOT_YET = {
 }
 
 # checks built by sub-agents: texts are taken from the "Proposed MANIFEST texts" section of notes/<ID>.md
-AGENT_NOTES = {"C16": "C16.md", "C20": "C20.md", "C13": "C13.md", "C14": "C14.md", "C03": "C03.md", "C10": "C10.md", "C11": "C11.md", "C01": "C01.md", "C17": "C17.md", "C18": "C18.md", "C09": "C09.md", "C12": "C12.md"}
+AGENT_NOTES = {"C16": "C16.md", "C20": "C20.md", "C13": "C13.md", "C14": "C14.md", "C03": "C03.md", "C10": "C10.md", "C11": "C11.md", "C01": "C01.md", "C17": "C17.md", "C18": "C18.md", "C09": "C09.md", "C12": "C12.md", "C19": "C19.md"}
 
 
 def grab(path):
